@@ -23,6 +23,8 @@ def run(ctx):
     from . import C10 as RC10
     from . import r_state as RS
     RC10.hidden_state_inventory(ctx, "R10.e", RS.reset_before_read(ctx, None))
+    from . import r_rank as RR
+    RR.search_chain_shape(ctx, "R06.a", parts=("complete", "score", "filter"))
     RC20.buffer_rules(ctx, None, None, "R20.f")
     return info("Necessary constants for split/joined spellings at the L=3 worst case: length gate accepts 1-3/4, "
                 "cost(NotAlpha)/4 passes the DL gate, Jaccard gate accepts 1/2, and characters without a language "
